@@ -457,7 +457,67 @@ const WITNESSES: [&str; 13] = [
     "b = a\na = b\nb = a\na = b\n",
 ];
 
+// ---- `comments_count = true`: a block that holds exclusively comments is not empty --------------------------------
+
+/// (program, expected `empty_if` / `empty_loop` diagnostics as (message, 1-based line of the label's start))
+fn comments_count_templates() -> Vec<(&'static str, Vec<(&'static str, usize)>)> {
+    vec![
+        ("if a then\n  -- note\nend\n", vec![]),
+        ("if a then\nend\n", vec![("empty if block", 1)]),
+        ("if a then\n  --[[ block\n  note ]]\nelse\nend\n", vec![("empty else block", 4)]),
+        ("if a then\n  f()\nelseif b then\n  -- note\nelse\n  -- note\nend\n", vec![]),
+        // a nested statement that holds only a comment, inside an earlier branch of a statement whose later branch is empty
+        ("if a then\n  if b then\n    -- inner note\n  end\nelse\nend\n", vec![("empty else block", 5)]),
+        ("if a then\n  if b then\n    -- inner note\n  end\nelseif c then\n  -- later note\nend\n", vec![]),
+        ("if a then\n  while b do\n    -- inner note\n  end\nelseif c then\nelse\n  f()\nend\n", vec![("empty elseif block", 5)]),
+        ("if a then\n  f()\n  if b then\n    -- one\n  elseif c then\n    -- two\n  end\n  if d then\n    -- three\n  end\nelseif e then\n  -- four\nelse\n  -- five\nend\n", vec![]),
+        ("while a do\n  -- note\nend\n", vec![]),
+        ("while a do\nend\n", vec![("empty loop block", 1)]),
+        ("for i = 1, 2 do\n  for j = 1, 2 do\n    -- inner note\n  end\nend\nfor k in pairs(t) do\nend\n", vec![("empty loop block", 6)]),
+        ("repeat\n  -- note\nuntil a\nrepeat\nuntil b\n", vec![("empty loop block", 4)]),
+        ("for i = 1, 2 do\n  while a do\n    --[[ x ]]\n  end\n  repeat\n    -- y\n  until b\n  for _ in f do\n  end\nend\n", vec![("empty loop block", 8)]),
+        ("do\n  if a then\n    -- first\n  end\n  if b then\n  end\n  if c then\n    -- third\n  end\nend\n", vec![("empty if block", 5)]),
+    ]
+}
+
+pub fn run_comments_count(out: &mut Out) {
+    let std = StandardLibrary::from_name("lua51").unwrap();
+    let mut config: std::collections::HashMap<String, toml::value::Value> = std::collections::HashMap::new();
+    for lint in ["empty_if", "empty_loop"] {
+        let mut t = toml::value::Table::new();
+        t.insert("comments_count".to_owned(), toml::value::Value::Boolean(true));
+        config.insert(lint.to_owned(), toml::value::Value::Table(t));
+    }
+    let checker: Checker<toml::value::Value> = Checker::new(CheckerConfig { config, ..CheckerConfig::default() }, std).unwrap();
+    let wrappers: [(&str, &str, usize); 4] = [("", "", 0), ("do\n", "end\n", 1), ("local function w()\n", "end\n", 1), ("-- header\nlocal t = {}\n", "return t\n", 2)];
+    for (src, expected) in comments_count_templates() {
+        for (pre, post, shift) in wrappers.iter() {
+            let prog = format!("{pre}{src}{post}");
+            let ast = match full_moon::parse(&prog) {
+                Ok(a) => a,
+                Err(_) => continue,
+            };
+            let diags = match std::panic::catch_unwind(std::panic::AssertUnwindSafe(|| checker.test_on(&ast))) {
+                Ok(d) => d,
+                Err(_) => continue,
+            };
+            let line_of = |byte: usize| prog[..byte.min(prog.len())].matches('\n').count() + 1;
+            let mut got: Vec<String> = diags
+                .iter()
+                .filter(|d| d.diagnostic.code == "empty_if" || d.diagnostic.code == "empty_loop")
+                .map(|d| format!("{}@{}", d.diagnostic.message, line_of(d.diagnostic.primary_label.range.0 as usize)))
+                .collect();
+            got.sort();
+            let mut want: Vec<String> = expected.iter().map(|(m, l)| format!("{m}@{}", l + shift)).collect();
+            want.sort();
+            out.bump("comments_count_cases");
+            out.case("C04.comments", &list(vec![st(&prog)]), &list(vec![list(got.iter().map(st).collect()), list(want.iter().map(st).collect())]));
+        }
+    }
+}
+
 pub fn run(args: &Args, out: &mut Out) {
+    run_comments_count(out);
     let mut rng = Rng::new(args.seed);
     let std51 = StandardLibrary::from_name("lua51").unwrap();
     let checker: Checker<toml::value::Value> = Checker::new(CheckerConfig::default(), std51).unwrap();
